@@ -62,6 +62,17 @@
 #![allow(clippy::non_std_lazy_statics)]
 
 /// Expands import statements for `fakesimd` or `std::simd`.
+// Verification hook (additive; only under the loom build): thread-local scratch declared through
+// `reusable!` becomes loom thread-local storage, so that every modelled thread owns its scratch as a
+// real thread does (loom runs its "threads" as coroutines of one OS thread, which would otherwise
+// share the `std` thread-locals) and the scratch starts empty in every explored execution.
+#[cfg(all(flacenc_verif, flacenc_verif_loom))]
+macro_rules! thread_local {
+    ($($t:tt)*) => {
+        loom::thread_local! { $($t)* }
+    };
+}
+
 macro_rules! import_simd {
     (as $modalias:ident) => {
         #[cfg(feature = "simd-nightly")]
